@@ -8,7 +8,8 @@ import sys
 sys.path.insert(0, ".")
 from harness import core
 try:
-    print("build ok in", core.build(), "s")
+    st = core.build()
+    print("build ok in", st["seconds"], "s; broken plugins:", list(st["broken_plugins"]), "; files that do not check:", st["failed_files"])
 except core.BuildBroken as e:
     print("BUILD BROKEN:", e.what); print(e.detail); sys.exit(1)
 PY
